@@ -33,6 +33,7 @@ type Config struct {
 	OpaqueMax   int
 	Thorough    bool
 	NoIfConv    bool
+	Preempt     int // max preemptions per execution (-1: unbounded, sleep-set reduction)
 }
 
 type Decision struct {
@@ -44,6 +45,7 @@ type Decision struct {
 	SleepSet []SleepEnt
 	Rest     []int
 	Own      bool
+	Sched    bool // a choice made by the scheduler model (which receiver, which ready select case)
 }
 
 type WorkItem struct {
@@ -102,6 +104,7 @@ type PathResult struct {
 	Nondet     []NondetOut
 	Emits      []EmitOut
 	Sched      []int
+	Decs       string
 	Inconcl    []string
 }
 
@@ -148,6 +151,8 @@ type Interp struct {
 	logs    []string // vLog entries (concrete summaries)
 	typeIDs map[string]int
 	pendingTrace []string
+	schedChoice  bool
+	preempts     int
 }
 
 type Thread struct {
@@ -451,12 +456,12 @@ func (in *Interp) choose(guards []*Term) int {
 			firstModel = m
 			continue
 		}
-		in.newWork = append(in.newWork, WorkItem{Prefix: clonePrefix(in.taken, Decision{Kind: 'c', N: len(guards), Pick: i}), Model: m})
+		in.newWork = append(in.newWork, WorkItem{Prefix: clonePrefix(in.taken, Decision{Kind: 'c', N: len(guards), Pick: i, Sched: in.schedChoice}), Model: m})
 	}
 	if first < 0 {
 		return -1
 	}
-	in.taken = append(in.taken, Decision{Kind: 'c', N: len(guards), Pick: first})
+	in.taken = append(in.taken, Decision{Kind: 'c', N: len(guards), Pick: first, Sched: in.schedChoice})
 	in.model = firstModel
 	in.addConstraint(guards[first])
 	return first
@@ -560,7 +565,7 @@ func (in *Interp) nondetOut(m *Model) []NondetOut {
 		return nil
 	}
 	ev := newEval(m)
-	var out []NondetOut
+	out := []NondetOut{}
 	for _, nd := range in.nondets {
 		o := NondetOut{Kind: nd.Kind, Name: nd.Name}
 		switch nd.Kind {
